@@ -162,3 +162,20 @@ Definition instantiated (bx by_ : list (text * cat)) (f0 f : feat) : Prop := com
 Definition binding_of (bx by_ : list (text * cat)) (c c0 : cat) : Prop :=
   skeleton c = skeleton c0 /\
   Forall2 (fun f f0 => f = f0 \/ (is_variable f0 = true /\ instantiated bx by_ f0 f)) (leaf_feats c) (leaf_feats c0).
+
+(* ---------- which feature a variable feature ends up standing for ---------- *)
+(* at a compared pair (a, b) the accepting side, if it is a variable feature, is instantiated with the other side:
+   a when a.unifies(b), otherwise b *)
+Definition inst_step (g : feat) (p : feat * feat) : option feat :=
+  match unifies (fst p) (snd p) with
+  | Ok_ true => if is_variable (fst p) && feat_eqb g (fst p) then Some (snd p) else None
+  | _ => if is_variable (snd p) && feat_eqb g (snd p) then Some (fst p) else None
+  end.
+(* the LAST instantiation wins *)
+Fixpoint instantiation (g : feat) (ps : list (feat * feat)) : option feat :=
+  match ps with
+  | [] => None
+  | p :: r => match instantiation g r with Some h => Some h | None => inst_step g p end
+  end.
+Definition instantiate_feat (ps : list (feat * feat)) (f : feat) : feat :=
+  match instantiation f ps with Some h => h | None => f end.
